@@ -145,7 +145,7 @@ type Outcomes struct {
 	cont  []*State
 }
 
-const maxPaths = 6
+var maxPaths = 6
 
 func single(st *State) Outcomes { return Outcomes{falls: []*State{st}} }
 
@@ -786,6 +786,10 @@ func (ex *Exec) execReturn(st *State, s *ast.ReturnStmt) {
 	if len(s.Results) == 0 && res.Len() > 0 {
 		for i := 0; i < res.Len(); i++ {
 			v, ok := st.vars[res.At(i)]
+			if !ok && res.At(i).Name() == "_" {
+				vals = append(vals, zeroVal(res.At(i).Type()))
+				continue
+			}
 			if !ok {
 				ex.unsupported(s, "bare return without named results")
 			}
@@ -1147,7 +1151,11 @@ func (ex *Exec) quickSolve(goals []*Obligation) {
 		os.WriteFile(g.File, []byte(g.script(ex.globalFacts)), 0o644)
 	}
 	ex.houdiniSeq++
-	d := &Discharger{TimeoutS: 4, Seed: 1, Par: runtime.NumCPU()}
+	to := 4
+	if sweepMode {
+		to = 1
+	}
+	d := &Discharger{TimeoutS: to, Seed: 1, Par: runtime.NumCPU()}
 	var wg sync.WaitGroup
 	sem := make(chan struct{}, d.Par)
 	for _, g := range goals {
